@@ -6,3 +6,5 @@ package logicalplan
 
 // A FilteredSelector always wraps a selector (established where it is built, replaceMatchers).
 //@ typeinv *logicalplan.FilteredSelector f: f.VectorSelector != nil
+// A RemoteExecution node always carries the engine it is to be sent to (makeSubQueries).
+//@ typeinv *logicalplan.RemoteExecution r: r.Engine != nil
